@@ -142,11 +142,12 @@ def extra_configs(prop, tier, seed):
         # protected division on a box far below EPSILON (every terminal coordinate is a denominator smaller than 1e-10), terminals
         # used directly as operands: evaluating one tree must leave every other tree's value alone
         for j, c in enumerate([c for c in runlevel.gen_configs('thorough', seed + 84) if c['kind'] == 'GP'][:4 if tier == 'quick' else 16]):
-            nv = c['n_vars']
-            extra.append(dict(c, hook='observer', functions=[['DIV'], ['DIV', 'SUM'], ['DIV', 'MUL', 'SUB']][j % 3], min_depth=1, max_depth=2 + j % 2,
-                              n_agents=[6, 10][j % 2], n_terminals=2, n_iter=3, box='tinybox', lb=[0.0] * nv, ub=[5e-11] * nv, objective='sphere', adv=0.0,
-                              store_best_only=False,
-                              hyper={'p_reproduction': 0.2, 'p_mutation': 0.2, 'p_crossover': 0.2, 'prunning_ratio': 0.0} if j % 2 else
+            # (one variable of ordinary range, one in [0, 5e-11]: sums, differences and products of the small coordinate stay inside
+            # its range, so a terminal array that changes under the feet of the trees sharing it shows in their values)
+            extra.append(dict(c, hook='observer', functions=[['SUM', 'SUB', 'MUL', 'DIV'], ['DIV', 'MUL', 'SUB'], ['DIV', 'SUM']][j % 3], min_depth=1,
+                              max_depth=2 + j % 2, n_agents=[10, 14][j % 2], n_terminals=2, n_iter=3 + j % 3, n_vars=2, box='mixedtiny', lb=[-5.0, 0.0],
+                              ub=[5.0, 5e-11], objective='sphere', adv=0.0, store_best_only=False,
+                              hyper={'p_reproduction': 0.3, 'p_mutation': 0.3, 'p_crossover': 0.3, 'prunning_ratio': 0.0} if j % 2 == 0 else
                               {'p_reproduction': 0.0, 'p_mutation': 0.0, 'p_crossover': 0.0, 'prunning_ratio': 0.0}))
     if prop == 'C15':
         # IHS bandwidth intervals far below EPSILON (also degenerate ones): the schedule stays inside them
@@ -392,8 +393,11 @@ def extra_configs(prop, tier, seed):
         pool_b = runlevel.gen_configs('thorough', seed + 281)
         for kind in [k for k in runlevel.KINDS]:
             for c in [c for c in pool_b if c['kind'] == kind and c['objective'] not in ('view0', 'view00', 'fmax')][:1 if tier == 'quick' else 3]:
-                extra.append(dict(c, hook='rebest', adv=0.0, n_iter=max(c['n_iter'], 8 if kind == 'BHA' else 4), n_agents=max(c['n_agents'], 6 if kind == 'BHA' else 3),
-                                  objective='positive' if kind == 'WCA' else 'sphere'))
+                c = dict(c, hook='rebest', adv=0.0, n_iter=max(c['n_iter'], 4), n_agents=max(c['n_agents'], 3), objective='positive' if kind == 'WCA' else 'sphere')
+                if kind == 'BHA':
+                    # long enough for a star to overtake the black hole several times (not a matter of the seed)
+                    c.update(n_iter=30, n_agents=8, box='wide', lb=[-10.0] * c['n_vars'], ub=[10.0] * c['n_vars'])
+                extra.append(c)
     if prop in ('C01', 'C13', 'C20', 'C06'):
         # the bounds of a built space re-declared through its setters (same values) before the task: hypercomplex spaces with real
         # bounds far from the unit box, kinds that clip their trial solutions through the agents' own bounds
@@ -588,6 +592,61 @@ def repeated_start_issues(kinds=('PSO', 'HC', 'ABC', 'SA')):
     return issues
 
 
+def plain_gp_issues(seeds=range(8)):
+    """GP tasks run *without any tap* (the recorder itself evaluates trees, which would trigger — and thereby hide — an
+    evaluation that has side effects on shared terminal arrays): at return and in the returned records every agent's position is
+    its tree's value limited to the box, its fitness the objective there, and best tree / best position / best fitness agree"""
+    import lib
+    L = lib.load()
+    np = L['np']
+    issues = []
+    boxes = [([-5.0, 0.0], [5.0, 5e-11]), ([0.0], [5e-11]), ([-10.0, -10.0], [10.0, 10.0]), ([1e-9, 5e-9], [2e-9, 6e-9])]
+    for sd in seeds:
+        lb, ub = boxes[sd % len(boxes)]
+        nv = len(lb)
+
+        def objective(x):
+            return float(np.sum((np.asarray(x, dtype=float) * 1e3 - 1.0) ** 2))
+
+        def clip(v):
+            v = np.array(v, dtype=float)
+            for j in range(nv):
+                v[j] = np.clip(v[j], lb[j], ub[j])
+            return v
+        rp = dict(how='plain-gp', seed=int(sd))
+        np.random.seed(1000 + sd)
+        try:
+            sp = L['TreeSpace'](n_trees=10, n_terminals=2, n_variables=nv, n_iterations=1 + sd % 5, min_depth=1, max_depth=3,
+                                functions=['SUM', 'SUB', 'MUL', 'DIV'], lower_bound=lb, upper_bound=ub)
+            gp = L['kinds']['GP'](hyperparams={'p_reproduction': 0.3, 'p_mutation': 0.3, 'p_crossover': 0.3, 'prunning_ratio': 0.0})
+            h = L['Opytimizer'](space=sp, optimizer=gp, function=L['Function'](pointer=objective)).start()
+        except Exception as ex:
+            issues.append(dict(what='plain-gp-raised', layer='oracle', cfg_kind='GP', error=repr(ex)[:120], replay=rp))
+            continue
+        bad = None
+        if len(sp.trees) != 10 or len(sp.agents) != 10:
+            bad = 'population size changed'
+        for i, (t, a) in enumerate(zip(sp.trees, sp.agents)):
+            if bad:
+                break
+            e_ = clip(t.position)
+            if e_.shape != a.position.shape or not np.array_equal(e_, a.position, equal_nan=True):
+                bad = f'agent {i} is not its tree at return'
+            elif not np.isnan(a.fit) and objective(a.position) != a.fit:
+                bad = f'agent {i}: fitness is not the objective at its position'
+        if not bad and not np.array_equal(clip(sp.best_tree.position), sp.best_agent.position, equal_nan=True):
+            bad = 'best tree is not the best position at return'
+        if not bad:
+            for t_, (tree, rec) in enumerate(zip(getattr(h, 'best_tree', []), getattr(h, 'best_agent', []))):
+                pos = np.asarray(rec[0], dtype=float)
+                if not np.array_equal(clip(tree.position), pos, equal_nan=True) or objective(pos) != rec[1]:
+                    bad = f'record {t_}: best tree, best position and best fitness disagree'
+                    break
+        if bad:
+            issues.append(dict(what='plain-gp-inconsistent', layer='oracle', cfg_kind='GP', detail=bad, lb=lb, ub=ub, replay=rp))
+    return issues
+
+
 def check(ctx):
     prop, tier, seed = ctx['prop'], ctx['tier'], ctx['seed']
     res = runpass.cached_pass(tier, seed)
@@ -604,6 +663,8 @@ def check(ctx):
     issues = collect(prop, res)
     if prop == 'C04':
         issues += repeated_start_issues()
+    if prop == 'C12':
+        issues += plain_gp_issues(range(12 if tier == 'quick' else 60))
     runs = res['runs']
     nt = [r for r in runs if nontrivial(prop, r)]
     distinct = len({json.dumps(r['cfg'], sort_keys=True) for r in nt})
@@ -715,6 +776,8 @@ def search(ctx, corr_broken, broken):
 def replay(prop, payload):
     if payload.get('how') == 'repeated-start':
         return bool(repeated_start_issues((payload['kind'],)))
+    if payload.get('how') == 'plain-gp':
+        return bool(plain_gp_issues([payload['seed']]))
     drv = common.Driver()
     try:
         r = runpass.analyse_run(payload['cfg'], drv, props=[prop])
